@@ -1057,6 +1057,10 @@ class Transiter(Interrupter):
         #exits, enters = framing.Framer.Uncommon(framer.actives,far.outline)
         #find uncommon and common entry and exit lists associated with transition
         exits, enters, reexens = framing.Framer.ExEn(framer.actives, far)
+        if exits and framer.active:
+            # .actives may be truncated by a conditional aux so also exit the
+            # suspended frames below its main frame
+            exits = framer.active.outline[len(reexens):]
 
         #check enters, if successful, perform transition
         if not framer.checkEnter(enters, exits):
